@@ -84,6 +84,10 @@ def gen_polyline(rng, exact):
         pts.add((3 * rng.randint(0, 4), 4 * rng.randint(0, 4), 12 * rng.randint(0, 1)))
     V = [list(p) for p in pts]
     rng.shuffle(V)
+    if n >= 3 and rng.random() < 0.2:
+        # degenerate geometry, valid combinatorics: coincident vertices (zero-length edges in the Euclidean mode)
+        for _ in range(rng.randint(1, max(1, n // 3))):
+            V[rng.randrange(n)] = list(V[rng.randrange(n)])
     cand = [(a, b) for a in range(n) for b in range(a + 1, n) if (not exact) or is_square(d2(V[a], V[b]))]
     rng.shuffle(cand)
     dens = rng.choice([0.15, 0.3, 0.5, 0.8])
@@ -109,8 +113,10 @@ def gen_polyline(rng, exact):
     return {"kind": "arrays", "V": V, "E": E, "F": None, "C": None}
 
 
-def gen_grid_surface(rng):
+def gen_grid_surface(rng, big=False):
     nu, nv = rng.randint(2, 6), rng.randint(2, 6)
+    if big:
+        nu, nv = rng.choice([(17, 16), (16, 17), (20, 14)])     # more than 256 vertices: ids beyond the small-int range
     style = rng.choice(["tri", "quad", "mixed"])
     V = [[3 * i, 4 * j, 0] for i in range(nu) for j in range(nv)]
     hole = None
@@ -132,6 +138,7 @@ def gen_grid_surface(rng):
                 F.append([a, b, c, d])
     V, (F,) = permute(rng, V, [F])
     rng.shuffle(F)
+    F = [f[k:] + f[:k] for f in F for k in [rng.randrange(len(f))]]     # any rotation of a face is the same face
     kind = "arrays" if all(len(f) == len(F[0]) for f in F) else "raw"
     return {"kind": kind, "V": V, "E": None, "F": F, "C": None}
 
@@ -205,7 +212,7 @@ def gen_case(rng):
         if b is None:
             b = gen_grid_surface(rng)
     elif r < 0.60:
-        b = gen_grid_surface(rng)
+        b = gen_grid_surface(rng, big=rng.random() < 0.06)
     elif r < 0.66:
         b = gen_closed_surface(rng)
     elif r < 0.78:
@@ -242,8 +249,9 @@ def gen_case(rng):
             den = 1
         elif wrepr == "f32" and style == "spread":
             pool = [rng.randint(0, 10 ** 5) for _ in range(npool)]
+    wexp = rng.choice([0, 0, 0, -40, 90, 127]) if (mode == "dict" and wrepr in ("pyfloat", "f64")) else 0
     case = {"build": b, "mode": mode, "wpool": pool, "wden": den, "unset": rng.choice([0, 0, 2, 3, 5]),
-            "wstyle": style, "wrepr": wrepr, "queries": []}
+            "wstyle": style, "wrepr": wrepr, "wexp": wexp, "queries": []}
     # session scenarios: the answers must depend on the current mesh and the arguments only
     if rng.random() < 0.3:
         case["ambient"] = [[[rng.randrange(0, 12), rng.choice(AMBIENT_PRIOS)] for _ in range(rng.randint(1, 4))]
@@ -366,7 +374,34 @@ def gen_queries(rng, info, k):
             q = {"f": "set", "start": s, "targets": {"form": "list", "v": pick(rng.randint(2, 4))}}
         q["export"] = export
         qs.append(q)
+    for q in qs:
+        decorate_query(rng, q, n)
     return qs
+
+
+LISTLIKE = ["list", "tuple", "nplist", "np32list", "nparray", "gen", "iter", "keys"]
+
+
+def decorate_query(rng, q, n):
+    """call form, numeric type of the start, other representations of the target collection, vertex 0 in a key role,
+    repetition after vandalising the first answer"""
+    if 0 <= q["start"] < n:
+        if rng.random() < 0.12 and q["f"] != "border":
+            q["start"] = 0                                   # index 0 as the start ...
+        q["startform"] = rng.choice(["int", "int", "np64", "np32", "u8"])
+        if q["startform"] == "u8" and q["start"] > 255:
+            q["startform"] = "np64"
+    tg = q.get("targets")
+    if tg and isinstance(tg["v"], list) and tg["v"] and all(0 <= t < n for t in tg["v"]):
+        if rng.random() < 0.12 and q["start"] != 0:
+            tg["v"][rng.randrange(len(tg["v"]))] = 0         # ... or among the targets (possibly the nearest one)
+        if tg["form"] in ("list", "tuple", "nplist") and rng.random() < 0.45:
+            tg["form"] = rng.choice(LISTLIKE)
+        if tg["form"] == "list" and rng.random() < 0.1 and max(tg["v"]) < 256:
+            tg["form"] = "u8list"
+    q["call"] = rng.choice(["pos", "pos", "kw", "omit"])
+    q["repeat"] = rng.random() < 0.25
+
 
 
 # ---------------------------------------------------------------------- what the model is told
@@ -376,6 +411,8 @@ def model_targets(spec):
         return [v]
     if form in ("set", "frozenset"):
         return list(set(v))          # the collection the code sees has no duplicates
+    if form == "keys":
+        return list(dict.fromkeys(v))
     return list(v)
 
 
@@ -594,14 +631,31 @@ def ambient_problem(case, info, qi):
     return None
 
 
+def extras_problem(case, info, qi):
+    """no side effect on the mesh or on the arguments; the same call repeated answers the same"""
+    ex = (info.get("extras") or [])
+    ex = ex[qi] if qi < len(ex) else {}
+    if ex.get("attrs_changed"):
+        return "side effect on the mesh: the attribute names changed from %s to %s during the call" % tuple(ex.get("attrs") or ["?", "?"])
+    if ex.get("weights_mutated"):
+        return "side effect on the arguments: the caller's weights dict was modified"
+    if ex.get("targets_mutated"):
+        return "side effect on the arguments: the caller's target collection was modified"
+    if ex.get("repeat") is not None:
+        return ("repeated call: after the first answer %s was modified in place by the caller, the same call answered %s"
+                % (str(info["obs"][qi][:3])[:200], str(ex["repeat"][:3])[:200]))
+    return None
+
+
 def judge(case, info, qi):
     q, o = case["queries"][qi], info["obs"][qi]
-    return oracle_query(case, info, q, o) or ambient_problem(case, info, qi)
+    return oracle_query(case, info, q, o) or ambient_problem(case, info, qi) or extras_problem(case, info, qi)
 
 
 def category(msg):
     """which clause of the property the oracle's sentence is about"""
-    for pat, cat in (("side effect", "side-effect"), ("polyline", "polyline"), ("not a mesh edge", "not-an-edge-path"),
+    for pat, cat in (("side effect on the mesh", "leaked-attribute"), ("side effect on the arguments", "argument-mutated"),
+                     ("repeated call", "repeat-differs"), ("side effect", "side-effect"), ("polyline", "polyline"), ("not a mesh edge", "not-an-edge-path"),
                      ("does not begin", "wrong-start"), ("does not end", "wrong-end"), ("is not a member", "end-not-in-set"),
                      ("the minimum is", "not-minimal"), ("nearest member is at", "not-nearest"), ("not connected", "unconnected-target"),
                      ("returned keys", "wrong-keys"), ("answered", "no-answer")):
@@ -725,7 +779,13 @@ def run(ctx):
                 "one-element collections, all reachable vertices, vertex sets (also containing the start, one-element, "
                 "duplicates), border, a few malformed (empty set, other component); 15% with export_path_mesh; session scenarios: "
                 "other PriorityQueue objects alive with pending items (their content must be unchanged afterwards), stored "
-                "edge-length attributes made stale by moving the vertices, earlier queries, attributes with colliding names. "
+                "edge-length attributes made stale by moving the vertices, earlier queries, attributes with colliding names; every "
+                "query in one of the call forms positional / keyword / optional arguments omitted, start as int / np.int64 / "
+                "np.int32 / np.uint8, target collections also as np.int32 / np.uint8 lists, numpy arrays, generators, iterators "
+                "and dict key views, vertex 0 forced into the start or target role in a fraction, 25% repeated after the first "
+                "answer was modified in place (same answer expected), attribute names of the mesh, the weights dict and the "
+                "target collection compared before/after each call; a few grids with more than 256 vertices, coincident "
+                "vertices, faces in any rotation, float weights scaled by 2^-40 .. 2^127. "
                 "Non-trivial = some returned path has >= 3 vertices; distinct = by canonical JSON of mesh+weights+queries")
     ctx.assumptions += ["path sums stay exactly representable in the float accumulator (below 2^53; below 2^24 when the weights "
                         "are np.float32): the model adds the VALUES of the weights exactly",
@@ -789,6 +849,12 @@ def run(ctx):
         for qi, (q, o) in enumerate(zip(c["queries"], inf["obs"])):
             ctx.count("query %s %s" % (q["f"], q.get("targets", {}).get("form", "")))
             ctx.count("answer " + o[0])
+            ctx.count("call form " + q.get("call", "pos"))
+            ctx.count("start given as " + q.get("startform", "int"))
+            if q.get("repeat"):
+                ctx.count("query repeated after vandalising the first answer")
+            if q["start"] == 0 or ("targets" in q and 0 in model_targets(q["targets"])):
+                ctx.count("vertex 0 is the start or a target")
             if q["f"] == "set" and len(model_targets(q["targets"])) == 1:
                 ctx.count("set query with one target")
             if q["f"] == "set" and q["start"] in q["targets"]["v"]:
